@@ -418,25 +418,7 @@ func (c *Check) setDecoderShape(rule, fnName string, step int64) {
 	}
 	apps := p.callsIn(fn, descIs("builtin:append"))
 	okA := len(apps) == 1 && inLoop(apps[0].Block())
-	adv := false
-	for _, blk := range fn.Blocks {
-		for _, in := range blk.Instrs {
-			phi, ok := in.(*ssa.Phi)
-			if !ok {
-				break
-			}
-			for i, e := range phi.Edges {
-				if !blk.Dominates(blk.Preds[i]) {
-					continue
-				}
-				if sl, isS := e.(*ssa.Slice); isS && sl.X == ssa.Value(phi) && sl.High == nil {
-					if cst, isC := sl.Low.(*ssa.Const); isC && cst.Value != nil && cst.Int64() == step {
-						adv = true
-					}
-				}
-			}
-		}
-	}
+	adv := elementLoopAdvance(fn, step)
 	c.require(okA && adv, rule, fnName, "element loop", p.Pos(fn.Pos()), fmt.Sprintf("one append per %d-octet element, cursor advances by %d", step, step))
 }
 
@@ -641,4 +623,75 @@ func (c *Check) oneParamPerWireParam(rule string) {
 		c.require(okT, rule, "decodeOptionalParams", "accepted list built by the loop's appends", p.InstrPos(r), "the returned list is the empty list extended only by the per-parameter append")
 	})
 	c.floor(rule, n, 1, "accepting returns of decodeOptionalParams")
+}
+
+// elementLoopAdvance recognises the two ways a fixed-stride element loop walks
+// its input: a cursor slice re-sliced by exactly step on the back edge
+// (b = b[step:]), or an index starting at 0, incremented by exactly step on
+// the back edge and compared with `< len(x)` at the loop head.
+func elementLoopAdvance(fn *ssa.Function, step int64) bool {
+	for _, blk := range fn.Blocks {
+		if !inLoop(blk) {
+			continue
+		}
+		for _, in := range blk.Instrs {
+			phi, ok := in.(*ssa.Phi)
+			if !ok {
+				break
+			}
+			for i, e := range phi.Edges {
+				if !blk.Dominates(blk.Preds[i]) {
+					continue
+				}
+				if sl, isS := e.(*ssa.Slice); isS && sl.X == ssa.Value(phi) && sl.High == nil {
+					if cst, isC := sl.Low.(*ssa.Const); isC && cst.Value != nil && cst.Int64() == step {
+						return true
+					}
+				}
+				bo, isB := e.(*ssa.BinOp)
+				if !isB || bo.Op != token.ADD || bo.X != ssa.Value(phi) {
+					continue
+				}
+				cst, isC := bo.Y.(*ssa.Const)
+				if !isC || cst.Value == nil || cst.Int64() != step {
+					continue
+				}
+				// starts at 0
+				zero := true
+				for k, e2 := range phi.Edges {
+					if k == i {
+						continue
+					}
+					if c0, ok := e2.(*ssa.Const); !ok || c0.Value == nil || c0.Int64() != 0 {
+						zero = false
+					}
+				}
+				// head test i < len(x)
+				iff, isIf := blk.Instrs[len(blk.Instrs)-1].(*ssa.If)
+				if !zero || !isIf {
+					continue
+				}
+				cmp, isCmp := iff.Cond.(*ssa.BinOp)
+				if !isCmp || cmp.Op != token.LSS || cmp.X != ssa.Value(phi) {
+					continue
+				}
+				// the element is read at the index
+				used := false
+				for _, r := range *phi.Referrers() {
+					switch x := r.(type) {
+					case *ssa.Slice:
+						used = used || x.Low == ssa.Value(phi)
+					case *ssa.IndexAddr:
+						used = used || x.Index == ssa.Value(phi)
+					}
+				}
+				if cl, ok := cmp.Y.(*ssa.Call); ok && used {
+					if b, isBI := cl.Call.Value.(*ssa.Builtin); isBI && b.Name() == "len" {
+						return true
+					}
+				}
+			}
+		}
+	}
+	return false
 }
